@@ -476,6 +476,94 @@ def full_event(code, id_):
     return e
 
 
+def direct_event(code, id_):
+    """A code object too large for TLC's sequences: the clauses of C02 / C13 are decided here, by code that shares
+    nothing with the library (dis, dis argval for jump targets, PyCode_Addr2Line) against the flattened blocks."""
+    from code_data import Cellvar, CodeData, Constant, Freevar, Jump, Name, Varname
+
+    e = {"id": id_, "ver": VER, "kind": "direct", "exc": "", "count": False, "names": False, "operands": False,
+         "jumps": False, "lines": False, "partition": False, "targets": False, "jump_range": False,
+         "n": len(code.co_code) // 2}
+    try:
+        cd = CodeData.from_code(code)
+    except BaseException as ex:  # noqa
+        e["exc"] = type(ex).__name__
+        return e
+    real = []
+    start = None
+    for i in dis.get_instructions(code):
+        if start is None:
+            start = i.offset
+        if i.opcode != EXT:
+            real.append((start, i))
+            start = None
+    idx_of = {st: k for k, (st, _) in enumerate(real)}
+    flat = [x for b in cd.blocks for x in b]
+    nb = len(cd.blocks)
+    starts = []
+    k = 0
+    for b in cd.blocks:
+        starts.append(k)
+        k += len(b)
+    e["partition"] = nb >= 1 and all(len(b) >= 1 for b in cd.blocks)
+    e["jump_range"] = all(0 <= x.arg.target < nb for x in flat if isinstance(x.arg, Jump))
+    e["count"] = len(flat) == len(real)
+    if not e["count"]:
+        return e
+    jrel = set(dis.hasjrel)
+    jany = jrel | set(dis.hasjabs)
+    tgt = {0}
+    ok_t = True
+    names = ops = jumps = lines = True
+    ncell = len(code.co_cellvars)
+    for (st, i), x in zip(real, flat):
+        a = x.arg
+        names = names and i.opname == x.name
+        lines = lines and cpy.addr2line(code, st) == x.line_number
+        if i.opcode in jany:
+            t = idx_of.get(i.argval)
+            if t is None:
+                ok_t = False
+            else:
+                tgt.add(t)
+            jumps = jumps and isinstance(a, Jump) and 0 <= a.target < nb and t is not None and starts[a.target] == t \
+                and a.relative == (i.opcode in jrel)
+        elif i.opcode in dis.hasname:
+            ops = ops and isinstance(a, Name) and a.name == code.co_names[i.arg]
+        elif i.opcode in dis.haslocal:
+            ops = ops and isinstance(a, Varname) and a.varname == code.co_varnames[i.arg]
+        elif i.opcode in dis.hasfree:
+            if i.arg < ncell:
+                ops = ops and isinstance(a, Cellvar) and a.cellvar == code.co_cellvars[i.arg]
+            else:
+                ops = ops and isinstance(a, Freevar) and a.freevar == code.co_freevars[i.arg - ncell]
+        elif i.opcode in dis.hasconst:
+            v = code.co_consts[i.arg]
+            if isinstance(v, types.CodeType):
+                ops = ops and isinstance(a, Constant) and isinstance(a.constant, CodeData)
+            else:
+                ops = ops and isinstance(a, Constant) and not isinstance(a.constant, CodeData) and cpy.fp(a.constant) == cpy.fp(v)
+        elif i.opcode >= dis.HAVE_ARGUMENT:
+            ops = ops and type(a) is int and a == i.arg
+    e["names"], e["operands"], e["jumps"], e["lines"] = names, ops, jumps, lines
+    e["targets"] = ok_t and set(starts) == tgt
+    return e
+
+
+BIGJUMP = "def f(x, y):\n    if x:\n" + "        y = y + 1\n" * 17000 + "    return y\n"
+
+
+def bigjump_to_file(path):
+    """one function whose `if` skips more than 65 536 code units (a jump operand that needs TWO EXTENDED_ARG prefixes
+    on every version); direct events for it and its module"""
+    top = compile(BIGJUMP, "<bigjump>", "exec", dont_inherit=True)
+    evs = [direct_event(c, "b:%s:bigjump:%s" % (VER, p)) for p, c in cpy.all_codes(top)]
+    with open(path, "w") as fh:
+        for e in evs:
+            fh.write(json.dumps(e, separators=(",", ":")) + "\n")
+    return len(evs)
+
+
 def corpus_to_file(files, path, optimize=0, max_units=6000, mode="exec"):
     evs = []
     skipped = 0
@@ -493,6 +581,7 @@ def corpus_to_file(files, path, optimize=0, max_units=6000, mode="exec"):
             id_ = "c:%s:o%d:%s:%s" % (VER, optimize, fn, p)
             if len(c.co_code) // 2 > max_units or len(cpy.linetable_of(c)) // 2 > 4000:
                 big += 1
+                evs.append(direct_event(c, id_))
                 continue
             ev = full_event(c, id_)
             if ev["wide"]:
@@ -521,8 +610,22 @@ def sources_to_file(sources, path, max_units=6000):
         except Exception as e:
             bad.append([s["id"], "%s: %s" % (type(e).__name__, e)])
             continue
-        for p, c in cpy.all_codes(code):
-            ev = full_event(c, "%s:%s:%s" % (s["id"], VER, p))
+        codes = [(p, c, "") for p, c in cpy.all_codes(code)]
+        if s.get("recode"):
+            # the library's own output is a code object like any other: decode what normalize().to_code() (and the
+            # plain to_code()) of this program gives, too
+            from code_data import CodeData
+
+            for tag, fn in (("~n", lambda d: d.normalize().to_code()), ("~r", lambda d: d.to_code())):
+                try:
+                    c2 = fn(CodeData.from_code(code))
+                except BaseException:  # noqa
+                    continue
+                if tag == "~r" and cpy.code_fp(c2) == cpy.code_fp(code):
+                    continue
+                codes += [(p, c, tag) for p, c in cpy.all_codes(c2)]
+        for p, c, tag in codes:
+            ev = full_event(c, "%s%s:%s:%s" % (s["id"], tag, VER, p))
             if "decl" in s and c.co_name == s.get("target"):
                 # the declaration this code object was rendered from, in the event's own tokens
                 ev["has_decl"] = True
